@@ -433,3 +433,11 @@ Fixpoint rx_escapes_ok (rs : list N) (escaped : bool) : bool :=
      else rx_escapes_ok rs' (c =? 92))
   end.
 Definition regexp_printable (s : str) : bool := rx_escapes_ok (runes s) false.
+
+(* what may follow a number: the end of the input or an ASCII character that neither continues the number
+   nor is rejected right after one (in printed types and values: ',', ']', '}', ')', ' ', line feed) *)
+Definition num_stop (k : str) : bool :=
+  match k with
+  | [] => true
+  | b :: _ => (b <? 128) && negb (is_digit b || (b =? 46) || (b =? 101) || (b =? 69) || (b =? 120) || (b =? 88))
+  end.
